@@ -36,6 +36,11 @@ def gen_cases(tier, seed):
                     if lv:
                         kw['error'] = lv
                     cases.append(common.mk(gen.content_for_bits(mode, k), tag='sweep', **kw))
+                    if isinstance(v, str) and lv == oracle.levels_of(v)[0]:
+                        # the same with boosting (default): capacity and padding must follow the boosted level
+                        kw = dict(kw)
+                        kw.pop('boost_error')
+                        cases.append(common.mk(gen.content_for_bits(mode, k), tag='sweep-boost', **kw))
     # near capacity for every version / level
     for (v, lv, mode, n) in gen.boundaries(('numeric', 'alphanumeric', 'byte', 'kanji')):
         if isinstance(v, str) or v <= 2:
